@@ -27,6 +27,7 @@ type routingFocus struct {
 }
 
 type routingRun struct {
+	twin    *world.World // C11: same routes and options, fox's built-in special handlers
 	src     sim.Source
 	res     *Result
 	f       routingFocus
